@@ -14,6 +14,29 @@ func init() {
 	subcommands["scan"] = cmdScan
 	subcommands["infer"] = cmdInfer
 	subcommands["digit-tables"] = cmdDigitTables
+	subcommands["scan-tables"] = cmdScanTables
+}
+
+// scan-tables: the scan-type enum (code, name) of pkg/scan/type.go, the two inferrer dispatch tables of
+// pkg/mlrval/mlrval_infer.go and the inferrer each flag installs
+func cmdScanTables(args []string, in *bufio.Scanner, out *bufio.Writer) {
+	for i, n := range scan.TypeNames {
+		fmt.Fprintf(out, "type %d %s\n", i, n)
+	}
+	normal, octal, sel := mlrval.VerifInferrerTables()
+	for i, n := range normal {
+		fmt.Fprintf(out, "normal %d %s\n", i, n)
+	}
+	for i, n := range octal {
+		fmt.Fprintf(out, "octal %d %s\n", i, n)
+	}
+	for _, k := range []string{"default", "S", "A", "O"} {
+		fmt.Fprintf(out, "select %s %s\n", k, sel[k])
+	}
+	// the scan type the real scanner assigns to one canonical example of each type name's comment in type.go
+	for _, ex := range []string{"abc", "123", "0899", "0o377", "0377", "0xcafe", "0b1011", "1.5"} {
+		fmt.Fprintf(out, "example %s %d\n", ex, int(scan.FindScanType(ex)))
+	}
 }
 
 // scan: hex(string) per line -> scan type number
